@@ -49,12 +49,13 @@ CHECKS["C09"] = ("Proof: C09.accepted / refused / accepted_iff / missing_source 
                  "single-file lengths across the frontier, missing sources at every index, pre-existing target.", T, "7 C09")
 
 D = "Lean 4 theorems (first layer) + model/code correspondence (differential, real tools vs compiled model) + independent-decoder oracle"
-CHECKS["C02"] = ("Proof: C02.write_then_read — on a well-formed side with a readable table, a successful writeFile leaves a well-formed side "
-                 "whose table is the old one plus the linked chain, and the entry naming that chain reads back exactly the content, for every "
-                 "content of every size (distinct flat sectors, prefix overwrite, the read loop is concatenation, chain walk); exact size law, "
-                 "announced block count; with C05.one_write_keeps_consistency the catalog decoder finds exactly that chain for the new entry. Not "
-                 "proved: the report text (checked). Tie/oracle: create -> list -> extract of both real tools vs the compiled model and vs the "
-                 "sources, sizes 0 .. beyond a side, every block of a side as first block of a file.", D, "7 C02")
+CHECKS["C02"] = ("Proof: C02.create_then_extract — for every list of sources with ordinary catalog names (any contents, sizes 0 .. beyond a side, "
+                 "end-of-side markers, missing files, refusals) --create returns 0 and writes the archive of a consistent image; --extract of that "
+                 "archive (either verbosity, with or without --into) returns 0 and writes exactly the files of the image as target/sideN/NAME.EXT in "
+                 "catalog order; every file of the image is the exact data of one of the sources under the entry written for it. Built on "
+                 "C02.write_then_read (controller round trip, every size), the invariant of C05 and load(save img) = img. Not proved: which sources "
+                 "end up stored (placement, C10) and the report text (checked). Tie/oracle: create -> list -> extract of both real tools vs the "
+                 "compiled model and vs the sources, sizes 0 .. beyond a side, every block of a side as first block of a file.", D, "7 C02")
 CHECKS["C04"] = ("Proof so far: geometry of save for both flavours and FF padding of .sd slots, kind/flag dispatch table = documented table, "
                  "32-byte entry layout for every name length, status validity = layout's, initFileSystem keeps geometry, a freshly created side "
                  "is accepted by the independent checker Spec.Dos.fsck (kernel evaluation). Tie/oracle: created images vs model, decoded by two "
@@ -68,20 +69,23 @@ CHECKS["C05"] = ("Proof: C05.every_history_consistent / every_archive_consistent
                  "Not proved: SideInv => acceptance by the independent Spec.Dos.fsck (both evaluated on every image). Tie/oracle: all histories of depth "
                  "<= 2/3 over 9 step kinds, random ones, third-party pre-images with a full catalog and fragmented free space; each step vs model + "
                  "independent fsck + full read-back.", D, "7 C05")
-CHECKS["C06"] = ("Proof: C06.old_files_intact — after a successful writeFile every entry on blocks that were not chosen and are off track 20 "
-                 "reads back identically; chosen blocks are never blocks in use; a sector write touches one sector; the table setter rewrites "
-                 "bytes 1..160 only; adding nothing saves the loaded sides and (fd) rewrites the image byte for byte. The catalog byte frame is "
-                 "checked, not proved. Tie/oracle: pre-images from tool histories, an independent writer and the bundled real image, then "
-                 "arbitrary batches; byte-level frame check.", D, "7 C06")
+CHECKS["C06"] = ("Proof: C06.add_keeps_every_file — --add on the archive of any consistent image (whoever wrote it, however fragmented, deleted "
+                 "entries or not) with any batch returns 0 and writes a consistent image in which every file that was stored is still in the same "
+                 "catalog slot with the same 16 entry bytes and the same content; every other file is the exact data of one of the sources; "
+                 "old_files_intact (controller level); a sector write touches one sector; the table setter rewrites bytes 1..160 only; adding nothing "
+                 "saves the loaded sides and (fd) rewrites the image byte for byte. The frame on sectors of used blocks is proved inside the "
+                 "invariant proof (mid_facts), the byte frame of table/catalog is checked. Tie/oracle: pre-images from tool histories, an "
+                 "independent writer (incl. full catalog + fragmented free space) and the bundled real image, then arbitrary batches; byte-level frame check.", D, "7 C06")
 CHECKS["C07"] = ("Proof so far: for any table in which a duplicate-free chain below 160 is linked (any allocation order) the reader follows "
                  "exactly that chain; linking a disjoint chain keeps other chains; size formula; load accepts 1/2/4-sided fd and 4-sided sd with "
                  "that many sides and rejects 3; the linear-time reader run by the model's extractor equals the slice-assignment loop of readFile on "
                  "every input. reader o independent-writer = identity is not proved (executed). Tie/oracle: images from an independent writer (Python "
                  "twin = Lean Spec.Dos.render, incl. one 157-block chain) through real list/extract vs model vs abstract files.", D, "7 C07")
-CHECKS["C10"] = ("Proof: storing a file and processing a batch never move the cursor back, keep the number of sides and never touch a "
-                 "side the cursor has left; C10.always_completes — on a consistent image every batch (sources dropped after the fourth side, files "
-                 "refused on every side, markers beyond the last side) returns 0 and writes exactly one archive, the serialisation of four consistent "
-                 "sides. Report sections = image sides is checked, not proved. Tie/oracle: interleavings of files "
+CHECKS["C10"] = ("Proof: C10.file_stored_in_one_place — one file offered to the injector, with all its retries on the following sides, either "
+                 "leaves every catalog slot of every side as it was or appears in exactly one slot of one side that held nothing, with its whole "
+                 "content (never split, never twice); the cursor never moves back and sides behind it are untouched; C10.always_completes — on a "
+                 "consistent image every batch returns 0 and writes exactly one archive of four consistent sides (sources dropped after the fourth "
+                 "side included). Report sections = image sides is checked, not proved. Tie/oracle: interleavings of files "
                  "and --eos on fresh / partially filled images; report sections and decoded image vs an independent replay of the placement rule.", D, "7 C10")
 CHECKS["C11"] = ("Proof: the payload setter never changes the sector length and overwrites exactly min(|v|,256) bytes (any length); save length "
                  "= sides x 1280 x sector size; .sd = .fd payloads with FF interleaved; both tools compute the same sides; load then save is the "
